@@ -11,19 +11,19 @@ requested outputs, `wt` = witness type of the spend, `ne` = new expiry if any, `
 def ModifySpec (so : ScriptOf) (a : Account) (outputs : List TxOut) (rate : Int) (wt : Nat) (ne : Option UInt32)
     (nv : Nat) (res : OpResult) : Prop :=
   ∃ (tx : Tx) (acct' : Account) (newOut : TxOut) (w idx : Nat) (pre : List Effect),
-    -- effects: at most one auctioneer request, then the store write, then the broadcast
+    -- effects: exactly one auctioneer request (always the cooperative path), then the store write, then the broadcast
     res.tx = some tx ∧ res.account = some acct' ∧
-    res.trace = pre ++ [.storeWrite acct', .publish tx] ∧ pre.length ≤ 1 ∧ (∀ e ∈ pre, e.isModify = true) ∧
+    res.trace = pre ++ [.storeWrite acct', .publish tx] ∧ pre.length = 1 ∧ (∀ e ∈ pre, e.isModify = true) ∧
+    (wt = wt_multiSigWitness ∨ wt = wt_muSig2Taproot) ∧
     -- the account outpoint is the only input (spent exactly once), no lock time
     tx.inputs.map (·.prev) = [a.outPoint] ∧ tx.lockTime = 0 ∧
     -- outputs = re-created account output + the requested outputs, verbatim
     tx.outputs.Perm (newOut :: outputs) ∧
     -- the re-created output is the output of the account as recorded (value and script)
     newOut = acct'.output so ∧
-    -- the recorded outpoint designates an output carrying the new account script; it IS the re-created output
-    -- when no requested output reuses that script
-    acct'.outPoint = ⟨selfHash, idx⟩ ∧ (∃ o, tx.outputs[idx]? = some o ∧ o.script = newOut.script) ∧
-    (newOut.script ∉ outputs.map (·.script) → tx.outputs[idx]? = some newOut) ∧
+    -- the recorded outpoint designates the re-created output, the only output carrying the new account script
+    acct'.outPoint = ⟨selfHash, idx⟩ ∧ tx.outputs[idx]? = some newOut ∧
+    newOut.script ∉ outputs.map (·.script) ∧
     -- conservation: new = old − withdrawn − fee, fee = rate · W / 1000, W the full weight of the broadcast tx
     witnessSize wt = some w ∧
     acct'.value = a.value - sumValues outputs - feeForWeight rate (fullWeight tx w) ∧
@@ -37,6 +37,7 @@ def ModifySpec (so : ScriptOf) (a : Account) (outputs : List TxOut) (rate : Int)
 theorem modify_spec {so : ScriptOf} (hso : ScriptLen34 so) {a : Account} {outputs : List TxOut} {rate : Int}
     {best : UInt32} {nv : Nat} {f : Faults} {ne : Option UInt32} {v : Int} {wt : Nat} {action : Action}
     (hact : action ≠ .close)
+    (hfresh : (createNewAccountOutput so a v ne nv).1.script ∉ outputs.map (·.script))
     (hvau : valueAfterAccountUpdate a.value outputs wt rate = .ok v)
     (h : (spendAccount so a action (createSpendTx so a ((createNewAccountOutput so a v ne nv).1 :: outputs)) wt
             ((createNewAccountOutput so a v ne nv).2 ++ [.state StatePendingUpdate]) best f).refusal = none) :
@@ -54,10 +55,12 @@ theorem modify_spec {so : ScriptOf} (hso : ScriptLen34 so) {a : Account} {output
     · exact ⟨idx, hl, hm⟩
     · exact absurd hc hact
   obtain ⟨idx, hl, hm⟩ := hloc'
-  have hlock0 : lock = 0 := by
-    rcases hlock with ⟨_, hc, _⟩ | ⟨_, h0⟩
+  have hlock0 : lock = 0 ∧ (wt = wt_multiSigWitness ∨ wt = wt_muSig2Taproot) := by
+    rcases hlock with ⟨_, hc, _⟩ | ⟨hw, h0⟩
     · exact absurd hc hact
-    · exact h0
+    · exact ⟨h0, hw⟩
+  obtain ⟨hlock0, hcoop⟩ := hlock0
+  simp only [hcoop, if_true] at hpre1
   subst hlock0 hm
   obtain ⟨w, t, hw, hloop, hv, hmin⟩ := vau_ok hvau
   obtain ⟨_, _, hrange, _, hdust, inT, w', hin, hle, hfloor⟩ := sanityCheck_ok hsan
@@ -77,18 +80,17 @@ theorem modify_spec {so : ScriptOf} (hso : ScriptLen34 so) {a : Account} {output
   rw [output_state_irrelevant, ← hnew] at hl
   have hstored := stored_fields a ms StatePendingUpdate idx best
   rw [hstored] at hacct htrace
-  refine ⟨_, _, newOut, w', idx, pre, htx, hacct, htrace, hpre1, hpre2, ?_, rfl, hperm, ?_, rfl, ?_, ?_, hw, ?_, ?_,
+  refine ⟨_, _, newOut, w', idx, pre, htx, hacct, htrace, hpre1, hpre2, hcoop, ?_, rfl, hperm, ?_, rfl, ?_, ?_, hw, ?_, ?_,
     ?_, ?_, ?_, ?_, rfl, ?_⟩
   · simp [createSpendTx, Account.txIn]
   · rw [hnew]; simp [Account.output]
-  · exact locateScript_some hl
-  · intro hfresh
-    apply locateScript_unique hl
+  · apply locateScript_unique hl
     intro o ho hs
     have := hperm.mem_iff.mp ho
     rcases List.mem_cons.mp this with rfl | hmem
     · rfl
     · exact absurd (List.mem_map.mpr ⟨o, hmem, hs⟩) hfresh
+  · exact hfresh
   · show (applyMods a ms).value = _
     rw [hval, ← hweight]; exact hv
   · rw [← hweight]
